@@ -36,7 +36,33 @@ def load_contracts():
         path = os.path.join(VERIF, "contracts", m + ".py")
         if os.path.exists(path):
             loaded.append(importlib.import_module("contracts." + m))
+    _no_silent_truth(loaded)
     return loaded
+
+
+def _no_silent_truth(modules):
+    """A sidecar proxy for a container (it defines __getitem__ / __contains__ / __setitem__ / __iter__) that defines neither __bool__ nor __len__ would
+    silently be TRUE in ``if mapping:`` / ``not queue`` - a verdict computed from an accident.  Such a use ends the path as undecided instead."""
+    import contracts.gproxies  # noqa: F401  (shared proxies)
+
+    from .core import Unsupported
+
+    def refuse(self):
+        raise Unsupported(f"truth value / length of the symbolic container {type(self).__name__} is not modelled")
+
+    seen = set()
+    for mod in list(modules) + [sys.modules.get("contracts.gproxies"), sys.modules.get("contracts.mgraph"), sys.modules.get("ujvc.vc")]:
+        if mod is None:
+            continue
+        for cls in list(vars(mod).values()):
+            if not isinstance(cls, type) or cls in seen or not getattr(cls, "__module__", "").startswith(("contracts.", "ujvc.")):
+                continue
+            seen.add(cls)
+            own = set().union(*(vars(k) for k in cls.__mro__ if k is not object))
+            if own & {"__getitem__", "__contains__", "__setitem__", "__iter__"} and not own & {"__bool__", "__len__"} \
+                    and not issubclass(cls, (list, dict, set, tuple, frozenset, BaseException)) and "__next__" not in own:
+                cls.__bool__ = refuse
+                cls.__len__ = refuse
 
 
 def _run_unit_job(name):
